@@ -666,3 +666,56 @@ for _rule in ("symbolic_math.simplify_boolean_expressions", "symbolic_math.simpl
     T(_rule,
       "def t(v):\n    print('t', v)\n    return v\nif t(1) and t(0) and t(1) and not t(1):\n    print('yes')\nif t(0) or t(0):\n    print('y2')\nprint('end')\n",
       "def t(v):\n    print('t', v)\n    return v\nx = 3\nif x > 1 and (t(1) or x > 1):\n    print(1)\nwhile t(0) or t(0):\n    pass\nprint('end')\n")
+
+
+# ---------------------------------------------------------------------------------------------------------------
+# round 5b (seeds C02-e, C02-g): small generated families, seed-independent
+
+def _dict_view_snapshots():
+    """`for .. in list(d.<view>()):` whose body changes the size of d: the copy is what makes the loop legal
+    (seed C02-e let _is_collection accept dict views, so remove_redundant_iter dropped the copy)."""
+    out = []
+    bodies = {"pop": "d.pop({k})", "del": "del d[{k}]", "insert": "d[({k}, 'n')] = 0", "clear": "d.clear()"}
+    for wrap in ("list", "tuple"):
+        for view, key in (("keys", "v"), ("values", "next(iter(d))"), ("items", "v[0]")):
+            for bname, body in bodies.items():
+                for binder in ("d = {1: 2, 3: 4}", "d = {i: i * i for i in range(3)}"):
+                    out.append(f"{binder}\nseen = []\nfor v in {wrap}(d.{view}()):\n    seen.append(v)\n"
+                               f"    {body.format(k=key)}\n    if len(seen) > 5:\n        break\nprint(seen, sorted(map(repr, d)))\n")
+    # the same views in positions where dropping the copy is harmless or where the rule must not care
+    out.append("d = {1: 2, 3: 4}\nprint(2 in list(d.values()), 1 in tuple(d.keys()), sorted(list(d.items())))\n")
+    out.append("d = {1: 2}\nks = list(d.keys())\nd[5] = 6\nprint(ks, list(d))\n")
+    return out
+
+
+T("performance.remove_redundant_iter", *_dict_view_snapshots())
+T("performance.optimize_contains_types", *_dict_view_snapshots()[-2:])
+
+
+def _chained_tests():
+    """if / loop tests that are chained comparisons whose middle operand has an effect or is not idempotent: a
+    negation must evaluate it once (seed C02-g negated chains by De Morgan's law, evaluating it twice)."""
+    out = []
+    mids = {
+        "call": ("def mid():\n    print('mid')\n    return 2\n", "mid()"),
+        "next": ("it = iter([2, 9, 2, 9, 2, 9])\n", "next(it)"),
+        "pop": ("q = [2, 9, 2, 9, 2, 9]\n", "q.pop()"),
+    }
+    chains = ("0 < {m} < 3", "0 <= {m} <= 2 < 5", "5 > {m} != 9", "{m} < 3 < {m}")
+    for mname, (pre, m) in mids.items():
+        for ch in chains:
+            test = ch.format(m=m)
+            # swap_if_else: empty / shorter body first
+            out.append(f"{pre}def f():\n    if {test}:\n        pass\n    else:\n        print('else')\n        return 'e'\n"
+                       f"    return 'b'\nprint(f(), f())\n")
+            # early_continue: if at the end of a loop body
+            out.append(f"{pre}out = []\nfor i in range(2):\n    out.append(i)\n    if {test}:\n        out.append('a')\n"
+                       f"        out.append('b')\n        out.append('c')\nprint(out)\n")
+            # early_return shape
+            out.append(f"{pre}def g(x):\n    if {test}:\n        y = x + 1\n        y = y * 2\n        return y\n    return -1\n"
+                       f"print(g(1), g(2))\n")
+    return out
+
+
+for _rule in ("fixes.swap_if_else", "fixes.early_continue", "fixes.early_return", "fixes.remove_redundant_else"):
+    T(_rule, *_chained_tests())
